@@ -9,6 +9,9 @@ ASSUMPTIONS = [
     "datagrams are attributed to sessions and decoded by refcodec, an independent codec written from docs/protocol.md",
     "after the first Close of a session only emissions are recorded and the acceptor (late_step, theorem C13_trace_retx_same_across_close) demands one content per sequence number for data AND control segments; gaplessness of first transmissions is not demanded there because queued segments may be discarded and the close response bypasses the send queue",
     "the close-race family needs real parallelism (GOMAXPROCS 2) between the woken Close and the output loop; about 1.7 % of its schedules put the data fragment on the wire before the close request reuses its number, hence 600 (quick) / 3000 (thorough) cheap schedules",
+    "recorded finding stateless-close-reply-reuses-sequence-number (C13_seq_reuse_after_close_refuted): after an endpoint has closed and forgotten a session, its underlay answers a late data/ack segment with a closeSessionRequest whose seq copies the peer's unAckSeq; C13_trace_retx_same_across_close_partial therefore ranges over the checked emissions (everything except those replies; C13_trace_after_close_coverage); the oracle reports exactly those replies under that sig and any other reuse as retx-differs; the deterministic witness family statelessclose runs in the thorough tier of C13 only",
+    "write deadlines: family deadline sets a write deadline before every client Write over a stalling socket; a Write that returns (0, timeout) is taken back and retried (the session stays in use); deadline-semantics deviations (C15) are not judged here; C13_seq_gapless_with_partial_writes / C13_reserve_up_front_refuted are about the model functions write_all / write_all_reserve",
+    "acks while closing: receipts and emissions after Close are recorded too and C13_trace_ack_safe_after_close / the oracle's ack-ahead check cover them (family closeloss: Close with a lost fragment in front of the close request)",
     "sequence numbers are modelled unbounded (uint32 wrap needs 2^32 segments in one session)",
 ]
 
